@@ -19,11 +19,11 @@ def special_scripts(rng, tier):
     from common import VERIF
     sys.path.insert(0, os.path.join(VERIF, "gen"))
     import special
-    return special.ref_retarget_scripts(rng, 30 if tier == "quick" else 1500) + special.multi_frame_removal_scripts(rng, 30 if tier == "quick" else 1500)
+    return special.ref_retarget_scripts(rng, 30 if tier == "quick" else 1500) + special.multi_frame_removal_scripts(rng, 30 if tier == "quick" else 1500) + special.away_scripts(rng, 20 if tier == "quick" else 1000)
 
 
 def run(tier, seed, replay):
-    kws = [dict(weights=dict(sop=8.0)), dict(policy="black", weights=dict(sop=7.0)), dict(policy="white"), dict(nclients=3, weights=dict(sop=7.0, sframe=2.0))]
+    kws = [dict(weights=dict(sop=8.0)), dict(policy="black", weights=dict(sop=7.0)), dict(policy="white"), dict(nclients=3, weights=dict(sop=7.0, sframe=2.0)), dict(sessions=True, weights=dict(sop=7.0, session=0.6))]
     return sim_check("C03", tier, seed, kws, n_quick=240, n_thorough=24000, oracle_props={"C03"}, known_ids=("D16", "D16b", "D16c", "D19"), impl_only_scripts=hierarchy_scripts, custom_scripts=special_scripts,
                      rule_extra=", implementation-only scripts with a replicated ChildOf hierarchy outside the D16 class, several structural operations on one entity inside one tick window spread over frames, visibility changes combined with despawns and removals, references to later-spawned entities",
                      extra_assumptions=["structure = held entities, component kind sets, marker, two-way map; entities the server pre-mapped for a client count as replicated to it"])
